@@ -14,6 +14,13 @@
 //                    (what the TLS suites use) and its Open returns P
 //   V id key iv a c t expect   Sm4GCM(key, iv, c, a, false) on inputs of which at most one bit differs from a
 //                              genuine (iv, a, c, t)  -> ok <recomputed tag> <p>
+//   Q id calls                 a HISTORY on reused caller buffers.  calls = fn:key:iv:a:x,... (fn = S1 | S0 | E | D | H for
+//                              Sm4GCM(true) | Sm4GCM(false) | GCMEncrypt | GCMDecrypt | GetH); each call line gives the VALUES
+//                              the arguments hold for that call.  The driver keeps ONE backing array per argument for the
+//                              whole history and writes the values of the next call into it IN PLACE (key rotated in its
+//                              buffer, IV counted up in its buffer, plaintext buffer reused), then calls with slices of
+//                              those arrays  -> ok <r1>,<r2>,... <mem>   r = <x>/<t> or <h>; mem = 1 iff no call changed
+//                              any of the four backing arrays (incl. the bytes behind the slices)
 // Observation lines:  id ok <fields> | id err | id PANIC | id HANG
 package main
 
@@ -83,6 +90,58 @@ func runCase(line string) string {
 				}
 			}
 			return fmt.Sprintf("ok %s %s %s %s %s %s %s", hx.Hex(C1), hx.Hex(T1), hx.Hex(P2c), hx.Hex(T2c), b2s(mem), b2s(direct), b2s(oracle))
+		case "Q":
+			type call struct {
+				fn            string
+				key, iv, a, x []byte
+			}
+			var calls []call
+			mk, mi, ma, mx := 0, 0, 0, 0
+			for _, c := range strings.Split(f[2], ",") {
+				p := strings.Split(c, ":")
+				cl := call{p[0], hx.UnHex(p[1]), hx.UnHex(p[2]), hx.UnHex(p[3]), hx.UnHex(p[4])}
+				calls = append(calls, cl)
+				mk, mi, ma, mx = max(mk, len(cl.key)), max(mi, len(cl.iv)), max(ma, len(cl.a)), max(mx, len(cl.x))
+			}
+			// one backing array per argument, 8 canary bytes behind the longest value
+			bufs := [4][]byte{make([]byte, mk+8), make([]byte, mi+8), make([]byte, ma+8), make([]byte, mx+8)}
+			for i := range bufs {
+				for j := range bufs[i] {
+					bufs[i][j] = byte(0xC0 + i)
+				}
+			}
+			mem := true
+			var outs []string
+			for _, cl := range calls {
+				vals := [4][]byte{cl.key, cl.iv, cl.a, cl.x}
+				var sl [4][]byte
+				var keep [4][]byte
+				for i := range bufs {
+					copy(bufs[i], vals[i]) // in place: same array, same start
+					sl[i] = bufs[i][:len(vals[i])]
+					keep[i] = append([]byte{}, bufs[i]...)
+				}
+				switch cl.fn {
+				case "S1", "S0":
+					x, t, err := sm4.Sm4GCM(sl[0], sl[1], sl[3], sl[2], cl.fn == "S1")
+					if err != nil {
+						return "err"
+					}
+					outs = append(outs, hx.Hex(x)+"/"+hx.Hex(t))
+				case "E":
+					x, t := sm4.GCMEncrypt(sl[0], sl[1], sl[3], sl[2])
+					outs = append(outs, hx.Hex(x)+"/"+hx.Hex(t))
+				case "D":
+					x, t := sm4.GCMDecrypt(sl[0], sl[1], sl[3], sl[2])
+					outs = append(outs, hx.Hex(x)+"/"+hx.Hex(t))
+				case "H":
+					outs = append(outs, hx.Hex(sm4.GetH(sl[0])))
+				}
+				for i := range bufs {
+					mem = mem && bytes.Equal(bufs[i], keep[i])
+				}
+			}
+			return "ok " + strings.Join(outs, ",") + " " + b2s(mem)
 		case "V":
 			P, T, err := sm4.Sm4GCM(hx.UnHex(f[2]), hx.UnHex(f[3]), hx.UnHex(f[5]), hx.UnHex(f[4]), false)
 			if err != nil {
@@ -185,6 +244,27 @@ func wrapIV(r *hx.Rng, key []byte, low uint32) []byte {
 	return iv[:]
 }
 
+func max(a, b int) int {
+	if a > b {
+		return a
+	}
+	return b
+}
+
+// the standard library's GCM over the SM4 block cipher (private copies of everything)
+func oracleSeal(key, iv, p, a []byte) []byte {
+	blk, err := sm4.NewCipher(append([]byte{}, key...))
+	if err != nil || len(iv) == 0 {
+		return nil
+	}
+	g, err := cipher.NewGCMWithNonceSize(blk, len(iv))
+	if err != nil {
+		return nil
+	}
+	out := g.Seal(nil, append([]byte{}, iv...), p, a)
+	return out[:len(p)]
+}
+
 func flip(b []byte, bit int) []byte {
 	c := append([]byte{}, b...)
 	c[bit/8] ^= 0x80 >> uint(bit%8)
@@ -263,6 +343,75 @@ func gen(seed uint64, tier string, o *hx.Out) {
 	// key lengths other than 16: Sm4GCM returns an error
 	for _, L := range []int{0, 1, 15, 17, 24, 32} {
 		g(r.Bytes(L), r.Bytes(12), r.Bytes(5), r.Bytes(20))
+	}
+	// histories of 2..4 calls on reused buffers: key rotated / one bit flipped in place, IV counted up in place,
+	// data buffers reused; the functions mixed
+	nQ := 160
+	if thorough {
+		nQ = 2500
+	}
+	fns := []string{"S1", "S0", "E", "D", "H"}
+	for i := 0; i < nQ; i++ {
+		key := r.Bytes(16)
+		iv := genIV(r, r.Pick([]int{12, 12, 12, 8, 1, 16, 17, 20}))
+		a := r.Bytes(r.Intn(24))
+		p := r.Bytes(r.Intn(50))
+		n := 2 + r.Intn(3)
+		var calls []string
+		var lastC []byte
+		for j := 0; j < n; j++ {
+			if j > 0 {
+				switch r.Intn(4) { // the key buffer
+				case 0: // unchanged
+				case 1:
+					key = flip(key, r.Intn(128))
+				default:
+					key = r.Bytes(16)
+				}
+				switch r.Intn(4) { // the IV buffer
+				case 0:
+				case 1: // counted up in place
+					iv = append([]byte{}, iv...)
+					for k := len(iv) - 1; k >= 0; k-- {
+						iv[k]++
+						if iv[k] != 0 {
+							break
+						}
+					}
+				case 2:
+					iv = genIV(r, r.Pick([]int{12, 8, 16, 1, 13}))
+				default:
+					iv = r.Bytes(len(iv))
+				}
+				if r.Intn(2) == 0 {
+					a = r.Bytes(r.Intn(24))
+				}
+				if r.Intn(2) == 0 {
+					p = r.Bytes(r.Intn(50))
+				}
+			}
+			fn := fns[r.Intn(5)]
+			if i < 8 { // directed: the same function twice on a key that changed in place
+				fn = []string{"S1", "S1", "E", "S0", "D", "H", "S1", "E"}[i]
+				if j == 1 {
+					key = flip(key, (i*17)%128)
+				}
+			}
+			x := p
+			if fn == "S0" || fn == "D" {
+				switch {
+				case lastC != nil && r.Intn(2) == 0:
+					x = lastC
+				case r.Intn(2) == 0:
+					x = oracleSeal(key, iv, p, a) // a genuine ciphertext under the current values
+				}
+			}
+			if fn == "S1" || fn == "E" {
+				lastC = oracleSeal(key, iv, x, a)
+			}
+			calls = append(calls, fmt.Sprintf("%s:%s:%s:%s:%s", fn, hx.Hex(key), hx.Hex(iv), hx.Hex(a), hx.Hex(x)))
+		}
+		emit(fmt.Sprintf("Q %d %s", next(), strings.Join(calls, ",")))
 	}
 	// every single-bit change of IV, A, C and T for a few messages: the recomputed tag must differ from T
 	nMsg := 3
